@@ -116,8 +116,11 @@ def run_vlex(prop, tier, plan, ev, findings):
     if not pairs: return ['V-lex: no (definition, generator) pair selected']
     undecided = []
     defs = sorted(set(d for d, _ in pairs)); cgs = sorted(set(c for _, c in pairs))
-    canaries = ('lex_body', 'root') if tier == 'quick' else ('all',)
-    o = VL.run(defs, cgs, REPO, WORK, canaries=canaries, only=set(pairs), canary_defs=set(spec.get('canary_defs', defs[:2])) if tier == 'quick' else None)
+    # vacuity canaries: quick - `ensures false` on lex_body and the root state of the designated definitions;
+    # thorough - on every function of the designated definitions and on lex_body / root of all the others
+    cdefs = set(spec.get('canary_defs', defs[:2]))
+    o = VL.run(defs, cgs, REPO, WORK, canaries=('lex_body', 'root'), only=set(pairs), canary_defs=(cdefs if tier == 'quick' else None),
+               canaries_full_for=(cdefs if tier != 'quick' else ()))
     if o['error']:
         return ['V-lex: %s' % o['error'][:1500]]
     ev['rewrites'].update('V-lex prelude: ' + n for n in o['prelude_notes'])
